@@ -130,7 +130,18 @@ func runPool(t *testing.T, c poolCase) (out outcome, err error) {
 			}
 			init = append(init, m.ctx)
 		}
-		pool := kitctx.NewPool(init...)
+		// The caller's slice stays the caller's: it is handed over with spare capacity, and straight after NewPool every
+		// element is overwritten with an already-ended context and the spare capacity is filled with more of them.
+		// The pool's members are the contexts it was given, whatever the caller does with the slice afterwards.
+		handed := make([]context.Context, len(init), len(init)+3)
+		copy(handed, init)
+		pool := kitctx.NewPool(handed...)
+		gone, goneCancel := context.WithCancel(context.Background())
+		goneCancel()
+		for i := range handed {
+			handed[i] = gone
+		}
+		handed = append(handed, gone, gone, gone)
 		cancelled := false // Pool.Cancel called
 		modelDone := func() bool {
 			if cancelled {
